@@ -148,6 +148,7 @@ func buildItems(tierName string, seed int64) []Item {
 			}
 		}
 	}
+	histItems(add, thorough)
 	return items
 }
 
@@ -1208,6 +1209,8 @@ func main() {
 			runObjects(fmt.Sprintf("i%05d", it.Idx), it.Type, it.Chunk, it.Pairs, map[string]interface{}{"idx": it.Idx, "seed": *seed, "tier": *tier})
 		case "ctx":
 			runCtx(it)
+		case "ctxhist":
+			runCtxHist(it)
 		}
 	}
 	core.Finish()
